@@ -308,8 +308,8 @@ VARIANTS = [
     V( 'hparse-comment-kept-at-eof', HFILES, "l = None\n continue # blank or comment", "continue # blank or comment", fires=[ 'H-PARSE' ] ),
     V( 'hparse-for-else-raise', HFILES, "l = None\n continue # blank or comment\n break\n if not l:\n raise StopIteration( \"Empty file\" )", "continue # blank or comment\n        break\n    else:\n        raise StopIteration( \"Empty file\" )\n    if not l:\n        raise StopIteration( \"Empty file\" )", silent=[ 'H-PARSE', 'T-RECORD' ] ),
     V( 'hparse-count-after-skip', HFILES, "n += 1\n l = l.decode( encoding or 'ascii' ).lstrip()\n if not l or l.startswith( '#' ):\n l = None\n continue # blank or comment", "l			= l.decode( encoding or 'ascii' ).lstrip()\n        if not l or l.startswith( '#' ):\n            l			= None\n            continue # blank or comment\n        n		       += 1", fires=[ 'H-PARSE' ] ),
-    V( 'hfiles-lexicographic', HFILES, "if n.startswith( self.name )), key=natural ):", "if n.startswith( self.name ))):", fires=[ 'H-FILES' ] ),
-    V( 'hfiles-reversed', HFILES, "if n.startswith( self.name )), key=natural ):", "if n.startswith( self.name )), key=natural, reverse=True ):", fires=[ 'H-FILES' ] ),
+    V( 'hfiles-lexicographic', HFILES, "if n == self.name or n.startswith( self.name + '.' )), key=natural ):", "if n == self.name or n.startswith( self.name + '.' ))):", fires=[ 'H-FILES' ] ),
+    V( 'hfiles-reversed', HFILES, "if n == self.name or n.startswith( self.name + '.' )), key=natural ):", "if n == self.name or n.startswith( self.name + '.' )), key=natural, reverse=True ):", fires=[ 'H-FILES' ] ),
     V( 'hfiles-stopiteration-break', HFILES, "if fd:\n fd.close()\n continue\n except Exception as exc:", "break\n                except Exception as exc:", fires=[ 'H-FILES' ] ),
     V( 'hfiles-after-nonstrict-gt', HFILES, "if after and not( ts > target if strict else ts >= target ):", "if after and not( ts > target ):", fires=[ 'H-FILES' ] ),
     V( 'hfiles-after-equivalent', HFILES, "if after and not( ts > target if strict else ts >= target ):", "if after and ( ts <= target if strict else ts < target ):", silent=[ 'H-FILES' ] ),
@@ -381,14 +381,14 @@ VARIANTS = [
     V( 'zonetoken-separators-reordered', TIMES, 'maketrans( ":-.", "   " )', 'maketrans( ".:-", "   " )', silent=[ 'T-ZONETOKEN' ] ),
     V( 'tnet-stream-stricter-int', TNET, "elif tntype == b'#'[0]:\n data[ours] = int( src )", "elif tntype == b'#'[0]:\n                assert src.isdigit()\n                data[ours]	= int( src )", fires=[ 'T-TNET' ], why='seed C20-13' ),
     V( 'tnet-stream-int-logged-first', TNET, "elif tntype == b'#'[0]:\n data[ours] = int( src )", "elif tntype == b'#'[0]:\n                log.info( 'int' )\n                data[ours]	= int( src )", silent=[ 'T-TNET' ] ),
-    V( 'allowed-text-admits-other', LOGIX, "USINT.tag_type: (BOOL.tag_type,\n USINT.tag_type),\n }", "USINT.tag_type:	(BOOL.tag_type,\n                                         USINT.tag_type),\n                    STRING.tag_type:	(STRING.tag_type, SINT.tag_type),\n                }", fires=[ 'T-ALLOWED' ], why='seed C05-13' ),
-    V( 'allowed-text-admits-itself', LOGIX, "USINT.tag_type: (BOOL.tag_type,\n USINT.tag_type),\n }", "USINT.tag_type:	(BOOL.tag_type,\n                                         USINT.tag_type),\n                    STRING.tag_type:	(STRING.tag_type,),\n                }", silent=[ 'T-ALLOWED' ] ),
+    V( 'allowed-text-admits-other', LOGIX, "STRUCT.tag_type: (),", "STRUCT.tag_type:	(),\n                    STRING.tag_type:	(STRING.tag_type, SINT.tag_type),", fires=[ 'T-ALLOWED' ], why='seed C05-13' ),
+    V( 'allowed-text-admits-itself', LOGIX, "STRUCT.tag_type: (),", "STRUCT.tag_type:	(),\n                    STRING.tag_type:	(STRING.tag_type,),", silent=[ 'T-ALLOWED' ] ),
     V( 'client-next-break-when-starved', CLIENT, "# non-transition from a sub-machine, just loop if input is still available.\n return None", "# non-transition from a sub-machine, just loop if input is still available.\n                    break", fires=[ 'P-ACT' ], why='seed C02-13' ),
     V( 'snapshot-vector-storage-rebound', DEVICE, "else:\n self.value[key] = value\n return", "else:\n                updated		= list( self.value )\n                updated[key]	= value\n                self.default	= updated\n            return", fires=[ 'R-SNAPSHOT' ], why='seed C09-14' ),
     V( 'tagloop-same-address-by-text', MAIN, "if device.resolve( te['path'], attribute=True ) == (cls,ins,att):", "if te['path'] == path:", fires=[ 'T-TAGLOOP' ], why='seed C09-15' ),
     V( 'tagloop-same-address-mirrored', MAIN, "if device.resolve( te['path'], attribute=True ) == (cls,ins,att):", "if (cls,ins,att) == device.resolve( te['path'], attribute=True ):", silent=[ 'T-TAGLOOP' ] ),
-    V( 'route-failed-connection-only-forgotten', UCMM, "failed = self.route_conn.pop( target, None )\n if failed is not None:\n failed.close()", "del self.route_conn[target]", fires=[ 'P-ROUTE' ], why='defect AO reverted' ),
-    V( 'route-failed-connection-del-then-close', UCMM, "failed = self.route_conn.pop( target, None )\n if failed is not None:\n failed.close()", "failed	= self.route_conn[target]\n                            del self.route_conn[target]\n                            failed.close()", silent=[ 'P-ROUTE' ] ),
+    V( 'route-failed-connection-only-forgotten', UCMM, "with self.route_lock:\n if route is not None and self.route_conn.get( target ) is route:\n self.route_conn.pop( target )\n if route is not None:\n route.close()", "with self.route_lock:\n                                self.route_conn.pop( target, None )", fires=[ 'P-ROUTE' ], why='defect AO reverted' ),
+    V( 'route-failed-connection-del-then-close', UCMM, "with self.route_lock:\n if route is not None and self.route_conn.get( target ) is route:\n self.route_conn.pop( target )\n if route is not None:\n route.close()", "with self.route_lock:\n                                if route is not None and self.route_conn.get( target ) is route:\n                                    del self.route_conn[target]\n                            if route is not None:\n                                route.close()", silent=[ 'P-ROUTE' ] ),
     V( 'limits-identity-item-unlimited', PARSER, "ilen[None] = decide( cls.__name__, state=cls( terminal=True, limit='..length' ),", "ilen[None]		= decide( cls.__name__, state=cls( terminal=True, limit=None if cls is identity_object else '..length' ),", fires=[ 'G-LIMITS' ], why='seed C10-13' ),
     V( 'limits-moved-to-nonconsuming-selector', PARSER, "state = cls( limit='...length', terminal=True ),", "state		= cls( terminal=True ),", fires=[ 'G-LIMITS' ], why='seed C10-14' ),
     V( 'limits-kwargs-reordered', PARSER, "state = cls( limit='...length', terminal=True ),", "state		= cls( terminal=True, limit='...length' ),", silent=[ 'G-LIMITS' ] ),
@@ -429,6 +429,26 @@ VARIANTS = [
     V( 'validate-plain-write-completeness-by-len', LOGIX, "assert data.service == self.WR_FRG_RPY or endmax == endactual, \\", "assert data.service == self.WR_FRG_RPY or len( data[context].data ) == elm, \\", silent=[ 'D-VALIDATE' ] ),
     V( 'resolve-lone-path-unprotected', DEVICE, "try:\n ids = resolve( targetpath.path )\n target = lookup( *ids )\n except Exception as exc:\n ids,target = (None,None,None),None", "ids			= resolve( targetpath.path )\n            target		= lookup( *ids )", fires=[ 'S-RESOLVE' ], why='defect H reverted' ),
     V( 'lone-failure-handed-on', DEVICE, "if ( target is None or not len( data.request.get( 'input', b'' ))\n or not isinstance( sys.exc_info()[1], Exception )):\n raise", "raise", fires=[ 'S-LONE' ], why='defect BA reverted' ),
+    V( 'route-table-filled-without-lock', UCMM, "with self.route_lock:\n route = self.route_conn.get( target )\n if route is None:", "if True:\n                                route		= self.route_conn.get( target )\n                                if route is None:", fires=[ 'P-ROUTE' ], why='defect BD reverted ( creation )' ),
+    V( 'route-handler-closes-whatever-is-registered', UCMM, "with self.route_lock:\n if route is not None and self.route_conn.get( target ) is route:\n self.route_conn.pop( target )\n if route is not None:\n route.close()", "failed	= self.route_conn.pop( target, None )\n                            if failed is not None:\n                                failed.close()", fires=[ 'P-ROUTE' ], why='defect BD reverted ( handler )' ),
+    V( 'allowed-struct-row-dropped', LOGIX, "STRUCT.tag_type: (),", "", fires=[ 'T-ALLOWED' ], why='STRUCT write refused: reverted' ),
+    V( 'validate-resolve-element-first-only', DEVICE, "if 'element' in term:\n element.append( term['element'] )", "if 'element' in term:\n            element.append( term['element'] )\n            break", fires=[ 'D-VALIDATE' ], why='multi-dimensional index fix reverted' ),
+    V( 'ident-vendor-signed', DEVICE, "Attribute( 'Vendor Number', UINT,", "Attribute( 'Vendor Number', 		INT,", fires=[ 'L-IDENT' ] ),
+    V( 'ident-getter-other-key', UCMM, "( 'product_code', 0, ( device.Identity.class_id, 1, 3 ), lambda d: d.UINT ),", "( 'product_code',	0,		( device.Identity.class_id, 1, 3 ),	lambda d: d.INT ),", fires=[ 'L-IDENT' ] ),
+    V( 'ownpath-attribute-from-last-segment', DEVICE, "_,_,a_id = resolve( data.path, attribute=True ) # numeric, or by (Tag) name", "a_id		= data.path['segment'][-1]['attribute']", fires=[ 'D-OWNPATH' ], why='GAS by name fix reverted' ),
+    V( 'hfiles-prefix-only', HFILES, "if n == self.name or n.startswith( self.name + '.' )), key=natural ):", "if n.startswith( self.name )), key=natural ):", fires=[ 'H-FILES' ] ),
+    V( 'hfiles-listdir-empty-dirname', HFILES, "os.listdir( self.dirs or '.' )", "os.listdir( self.dirs )", fires=[ 'H-FILES' ] ),
+    V( 'sockaddr-little-endian-text', PARSER, "source=sin_addr_octets, data=ip_address_data )) as engine:", "source=struct.pack( '<I', struct.unpack( '>I', sin_addr_octets )[0] ), data=ip_address_data )) as engine:", fires=[ 'L-SOCKADDR' ] ),
+    V( 'type-setter-skips-conversion', DEVICE, "self.default = type(self.default)( v )", "self.default		= v if isinstance( v, type( self.default )) else type(self.default)( v )", fires=[ 'D-TYPE' ], why='seed C03 round 6' ),
+    V( 'echo-envelope-replaced', UCMM, "unc_send= rsp.enip.CIP.send_data.CPF.item[1].unconnected_send", "data.enip= rsp.enip\n                                unc_send= data.enip.CIP.send_data.CPF.item[1].unconnected_send", fires=[ 'D-ECHO' ], why='seed C06 round 6' ),
+    V( 'udp-peer-not-remembered', MAIN, "addr = frm\n stats,_ = stats_for( addr )", "stats,_	= stats_for( frm )", fires=[ 'E-CONTAIN' ], why='seed C08 round 6' ),
+    V( 'print-raw-slice-bound', MAIN, "key.indices( len( self ))[1]-1 if isinstance( key, slice ) else key,\n value ))\n\n # Iterate", "key.stop-1 if isinstance( key, slice ) else key,\n                value ))\n\n    # Iterate", fires=[ 'W-PRINT' ], why='seed C05 round 6' ),
+    V( 'gate-status-and-count', PARSER, "predicate=lambda path=None, data=None, **kwds: data[path+'_ext.size'],", "predicate=lambda path=None, data=None, **kwds: data[path] and data[path+'_ext.size'],", fires=[ 'G-GATE' ], why='seed C10 round 6' ),
+    V( 'gate-count-compared', PARSER, "predicate=lambda path=None, data=None, **kwds: data[path+'_ext.size'],", "predicate=lambda path=None, data=None, **kwds: data[path+'_ext.size'] > 0,", silent=[ 'G-GATE' ] ),
+    V( 'regex-size-restriction-on-live-only', AUTO, "assert ( 1 <= len( machine.map[pre] ) <= 2 ), \\", "assert ( 1 <= len( [ s for s,d in tab.items() if d in states ] ) <= 2 ), \\", fires=[ 'X-FROMREGEX' ], why='seed C11 round 6' ),
+    V( 'collect-timeout-as-deadline', CLIENT, "response,elapsed= await_response( self, timeout=timeout )", "response,elapsed= await_response( self, timeout=None if timeout is None else max( 0, timeout - 1 ))", fires=[ 'K-TIMEOUT' ], why='seed C12 round 6' ),
+    V( 'process-setup-after-parse', LOGIX, "ucmm = setup( **kwds )\n\n source = rememberable()", "source			= rememberable()\n    ucmm			= setup( **kwds )", fires=[ 'C-MAIN' ], why='seed C15 round 6' ),
+    V( 'hfiles-glob-pattern', HFILES, "for n in os.listdir( self.dirs or '.' )\n if n == self.name or n.startswith( self.name + '.' )), key=natural ):", "for n in map( os.path.basename, glob.glob( self.path + '*' ))), key=natural ):", fires=[ 'H-FILES' ], why='seed C18 round 6' ),
 ]
 
 
